@@ -6,15 +6,18 @@ import (
 	"context"
 	"io"
 	"log/slog"
+	"strconv"
 
 	"google.golang.org/grpc"
+	"google.golang.org/grpc/metadata"
 
+	"github.com/oxia-db/oxia/common/constant"
 	"github.com/oxia-db/oxia/proto"
 )
 
 // White-box entry points for the C13 harness: the *real* public RPC handlers (no network), so that the harness
 // learns from the code under test which client requests are accepted into the log. If validation is ever added
-// to publicRpcServer.Write / procesWriteStream, rejected requests drop out of the C13 grammar by themselves.
+// to publicRpcServer.Write / WriteStream, rejected requests drop out of the C13 grammar by themselves.
 
 type verifC13Director struct {
 	ShardsDirector
@@ -43,20 +46,28 @@ func (s *verifC13Stream) Send(r *proto.WriteResponse) error {
 }
 func (s *verifC13Stream) Recv() (*proto.WriteRequest, error) {
 	if len(s.reqs) == 0 {
-		return nil, io.EOF
+		// the client keeps its stream open until it has its answer
+		<-s.ctx.Done()
+		return nil, s.ctx.Err()
 	}
 	r := s.reqs[0]
 	s.reqs = s.reqs[1:]
 	return r, nil
 }
 
-// VerifC13PublicWriteStream feeds one request through procesWriteStream (the body of the WriteStream handler
-// after the shard has been taken from the call metadata) and waits for its response or its error.
+// VerifC13PublicWriteStream feeds one request through the WriteStream handler (shard and namespace in the
+// call metadata, as a client sends them) and waits for its response or its error.
 func VerifC13PublicWriteStream(ctx context.Context, lc LeaderController, req *proto.WriteRequest) (*proto.WriteResponse, error) {
-	st := &verifC13Stream{ctx: ctx, reqs: []*proto.WriteRequest{req}, resp: make(chan *proto.WriteResponse, 1)}
-	finished := make(chan error, 4)
-	procesWriteStream(ctx, finished, st, lc)
-	// RF=1: the write callback has run synchronously (or from the WAL sync goroutine) - wait for either outcome
+	s := &publicRpcServer{shardsDirector: verifC13Director{lc: lc}, log: slog.Default()}
+	sctx, cancel := context.WithCancel(ctx)
+	defer cancel()
+	sctx = metadata.NewIncomingContext(sctx, metadata.Pairs(
+		constant.MetadataShardId, strconv.FormatInt(lc.ShardID(), 10),
+		constant.MetadataNamespace, lc.Namespace()))
+	st := &verifC13Stream{ctx: sctx, reqs: []*proto.WriteRequest{req}, resp: make(chan *proto.WriteResponse, 1)}
+	finished := make(chan error, 1)
+	go func() { finished <- s.WriteStream(st) }()
+	// RF=1: the write callback runs synchronously or from the WAL sync goroutine - wait for either outcome
 	for {
 		select {
 		case r := <-st.resp:
@@ -64,10 +75,10 @@ func VerifC13PublicWriteStream(ctx context.Context, lc LeaderController, req *pr
 		case <-ctx.Done():
 			return nil, ctx.Err()
 		case err := <-finished:
-			if err != nil {
-				return nil, err
+			if err == nil {
+				err = io.ErrUnexpectedEOF // the handler ended although the stream is still open
 			}
-			// nil = clean EOF of the request stream; keep waiting for the response / error of the request
+			return nil, err
 		}
 	}
 }
